@@ -126,3 +126,30 @@ func H_C07_transitive() {
 	}
 	verifReach("end")
 }
+
+// operands that share structure: one operand (or a part of it) is nested inside the other. Equals is still
+// plain structural equality, the same in both argument orders.
+func H_C07_operands_sharing_structure() {
+	a := nondetInt()
+	x := NewList(NewList(a))
+	ox := NewObject("k", NewList(a))
+	var l, r any
+	switch nondetIntRange(0, 3) {
+	case 0:
+		l, r = x, NewList(x)
+	case 1:
+		l, r = x, NewList(x.GetList(0))
+	case 2:
+		l, r = ox, NewObject("k", ox)
+	default:
+		l, r = NewList(x, ox), NewList(x, ox)
+	}
+	bl, br := hSnapAny(l), hSnapAny(r)
+	want := hRefEq(bl, br)
+	lr, p1 := hEqualsAny(l, r)
+	rl, p2 := hEqualsAny(r, l)
+	verifAssert(!p1 && !p2, "Equals never panics")
+	verifAssert(lr == want && rl == want, "Equals is exactly typed structural equality, in both argument orders, also when the operands share structure")
+	verifAssert(hExact(bl, hSnapAny(l)) && hExact(br, hSnapAny(r)), "Equals never modifies either operand")
+	verifReach("end")
+}
